@@ -38,3 +38,14 @@ Theorem functions_agree : functions_ok = true.
 Proof. vm_compute. reflexivity. Qed.
 Theorem log10f_agrees : log10f_ok = true.
 Proof. vm_compute. reflexivity. Qed.
+
+(* constructors of the queue limiter / pools install the ordering, backlog bound and timeout their names promise *)
+From GCL Require Import Model.Waiters.
+Fixpoint rows_eqb (a b : list (Z * (Z * (Z * Z)))) : bool :=
+  match a, b with
+  | [], [] => true
+  | (i, (o, (m, t))) :: ra, (i', (o', (m', t'))) :: rb => (i =? i') && (o =? o') && (m =? m') && (t =? t') && rows_eqb ra rb
+  | _, _ => false
+  end.
+Theorem ctors_agree : rows_eqb ctor_table ctor_expected = true.
+Proof. vm_compute. reflexivity. Qed.
